@@ -67,6 +67,10 @@ pub struct PGen<'c, 'a, 'w> {
     avoid_this_prop: Option<&'static str>,
     /// inside a switch (a `break` is legal)
     in_switch: usize,
+    /// a local the next tail value should depend on (set by statements that test scoping)
+    must_use: Option<usize>,
+    /// type of the tail value the current statement list leads to
+    tail_ty: Option<T>,
 }
 
 fn lit_i(v: i64) -> E {
@@ -84,7 +88,7 @@ const DOUBLES: &[(f64, &str)] = &[
 
 impl<'c, 'a, 'w> PGen<'c, 'a, 'w> {
     pub fn new(ch: &'c mut Chooser<'a>, world: &'w World, this: usize, opts: GenOpts) -> Self {
-        PGen { ch, world, this, locals: vec![], scope: vec![], assigned: BTreeSet::new(), consts: BTreeSet::new(), opts, nodes: 0, handler: false, avoid_this_prop: None, in_switch: 0 }
+        PGen { ch, world, this, locals: vec![], scope: vec![], assigned: BTreeSet::new(), consts: BTreeSet::new(), opts, nodes: 0, handler: false, avoid_this_prop: None, in_switch: 0, must_use: None, tail_ty: None }
     }
 
     fn budget_left(&self) -> bool {
@@ -704,7 +708,8 @@ impl<'c, 'a, 'w> PGen<'c, 'a, 'w> {
             if !self.budget_left() {
                 break;
             }
-            match self.ch.weighted(&[40, 15, 20, 10, 5, 10]) {
+            match self.ch.weighted(&[40, 15, 20, 10, 5, 10, if d > 0 { 18 } else { 0 }]) {
+                6 => self.prefix_switch(out),
                 0 => {
                     // let / const with initialiser (annotation optional)
                     let ty = self.value_type_for_local();
@@ -807,14 +812,160 @@ impl<'c, 'a, 'w> PGen<'c, 'a, 'w> {
         0
     }
 
+    /// A switch in statement position whose bodies only reassign visible locals; the first body
+    /// may declare a variable that shadows an outer one (directly in the case when
+    /// `let_in_case` is allowed, inside a block otherwise). What follows the switch sees the
+    /// outer variable again.
+    fn prefix_switch(&mut self, out: &mut Vec<S>) {
+        let targets: Vec<usize> = self.scope.iter().copied().filter(|i| self.assigned.contains(i) && !self.consts.contains(i) && *i >= self.param_count() && matches!(self.locals[*i].ty, T::Int | T::Str | T::Bool | T::Double)).collect();
+        // make sure there is a variable of the tail type to work with
+        let mut targets = targets;
+        if let Some(tt) = self.tail_ty.clone() {
+            if matches!(tt, T::Int | T::Str | T::Bool | T::Double) && !targets.iter().any(|i| self.locals[*i].ty == tt) {
+                let init = self.expr(&tt, 1);
+                if !(tt == T::Uint && is_const_int(&init)) {
+                    let i = self.new_local(tt.clone(), None);
+                    self.scope.push(i);
+                    self.assigned.insert(i);
+                    out.push(S::Decl(i, false, false, Some(init)));
+                    targets.push(i);
+                }
+            }
+        }
+        if targets.is_empty() {
+            return;
+        }
+        self.ch.label("switch-as-statement");
+        let st = self.ch.pick(&[T::Int, T::Int, T::Mode, T::Bool, T::Str]).clone();
+        let value = self.expr(&st, 2);
+        let ncases = 1 + self.ch.below(3);
+        let has_default = self.ch.chance(1, 2);
+        let nb = ncases + has_default as usize;
+        let dpos = if has_default { self.ch.below(nb) } else { usize::MAX };
+        let saved_scope = self.scope.clone();
+        let saved_assigned = self.assigned.clone();
+        self.in_switch += 1;
+        let mut bodies = vec![];
+        let mut hidden: Option<String> = None;
+        let mut shadowed_outer: Option<usize> = None;
+        for pos in 0..nb {
+            let scope_before = self.scope.clone();
+            let assigned_before = self.assigned.clone();
+            let mut body = vec![];
+            let mut decl_here = false;
+            if pos == 0 && self.ch.chance(2, 3) {
+                // shadow an outer assigned local; the initialiser is evaluated before the inner name exists
+                let c: Vec<usize> = self.scope.iter().copied().filter(|i| self.assigned.contains(i) && *i >= self.param_count()).collect();
+                // prefer a variable of the type of the tail value (it can then decide the result)
+                let pref: Vec<usize> = c.iter().copied().filter(|i| Some(&self.locals[*i].ty) == self.tail_ty.as_ref()).collect();
+                let outer = if !pref.is_empty() && self.ch.chance(3, 4) { *self.ch.pick(&pref) } else { *self.ch.pick(&c) };
+                // mostly the type of the outer variable, so that a later read type-checks either way
+                let oty = self.locals[outer].ty.clone();
+                let ty = if matches!(oty, T::Int | T::Str | T::Bool | T::Double) && self.ch.chance(3, 4) { oty } else { self.ch.pick(&[T::Int, T::Str, T::Bool]).clone() };
+                let init = self.expr(&ty, 1);
+                shadowed_outer = Some(outer);
+                let inner = self.new_local(ty, Some(outer));
+                let name = self.locals[inner].name.clone();
+                self.scope.retain(|i| self.locals[*i].name != name);
+                self.scope.push(inner);
+                self.assigned.insert(inner);
+                body.push(S::Decl(inner, false, false, Some(init)));
+                hidden = Some(name);
+                decl_here = true;
+                self.ch.label(if self.opts.allow.let_in_case { "let-in-case-shadows-outer" } else { "block-in-case-shadows-outer" });
+            }
+            let visible_targets: Vec<usize> = targets.iter().copied().filter(|i| self.scope.contains(i)).collect();
+            if !visible_targets.is_empty() && self.ch.chance(4, 5) {
+                let o = *self.ch.pick(&visible_targets);
+                let ty = self.locals[o].ty.clone();
+                let v = self.expr(&ty, 2);
+                body.push(S::Expr(E::AssignLocal(o, Box::new(v))));
+            }
+            let falls = pos + 1 < nb && self.ch.chance(1, 4);
+            if decl_here && !self.opts.allow.let_in_case {
+                body = vec![S::Block(body)];
+            }
+            if !falls {
+                body.push(S::Break);
+            }
+            self.scope = scope_before;
+            self.assigned = assigned_before;
+            // the rest of the switch must not mention the shadowed name (temporal dead zone)
+            if let Some(n) = &hidden {
+                let n = n.clone();
+                self.scope.retain(|i| self.locals[*i].name != n);
+            }
+            bodies.push(body);
+        }
+        self.in_switch -= 1;
+        let mut cases = vec![];
+        let mut default = None;
+        let mut used: Vec<String> = vec![];
+        for (pos, body) in bodies.into_iter().enumerate() {
+            if pos == dpos {
+                default = Some((pos, body));
+            } else {
+                // distinct literal labels: start at a chosen candidate, advance to an unused one
+                let cands: Vec<E> = match st {
+                    T::Int => (-1..5).map(lit_i).collect(),
+                    T::Str => ["", "a", "b", "ab", "abc"].iter().map(|s| E::Str((*s).to_owned(), crate::qml::js_string(s))).collect(),
+                    T::Mode => MODES.iter().map(|m| E::EnumLit(m, T::Mode)).collect(),
+                    _ => vec![E::Bool(false), E::Bool(true)],
+                };
+                let start = self.ch.below(cands.len());
+                let mut l = cands[start].clone();
+                for k in 0..cands.len() {
+                    let e = &cands[(start + k) % cands.len()];
+                    let key = format!("{e:?}");
+                    if !used.contains(&key) {
+                        used.push(key);
+                        l = e.clone();
+                        break;
+                    }
+                }
+                cases.push((l, body));
+            }
+        }
+        self.scope = saved_scope;
+        self.assigned = saved_assigned;
+        out.push(S::Switch(value, cases, default));
+        // what follows the switch sees the outer variable again: copy it into a fresh local so
+        // that the tail is likely to depend on it
+        if let Some(o) = shadowed_outer {
+            if matches!(self.locals[o].ty, T::Int | T::Str | T::Bool | T::Double | T::Mode) && self.ch.chance(3, 4) {
+                let n = self.new_local(self.locals[o].ty.clone(), None);
+                self.scope.push(n);
+                self.assigned.insert(n);
+                out.push(S::Decl(n, false, false, Some(E::Local(o))));
+                self.must_use = Some(n);
+            } else {
+                self.must_use = Some(o);
+            }
+        }
+    }
+
     /// statements in tail-value form: every path ends in `return e` or executes a value
     /// expression statement last
     pub fn tail(&mut self, t: &T, d: usize) -> Vec<S> {
         let mut out = vec![];
         let saved_scope = self.scope.clone();
         let saved_assigned = self.assigned.clone();
+        let saved_tail_ty = self.tail_ty.replace(t.clone());
         self.prefix(d, &mut out);
-        out.push(self.tail_stmt(t, d));
+        self.tail_ty = saved_tail_ty;
+        match self.must_use.take() {
+            Some(l) if self.locals[l].ty == *t && self.scope.contains(&l) && matches!(t, T::Int | T::Str | T::Bool | T::Double) => {
+                // the value depends on the local: x + e, x && e, ...
+                self.ch.label("tail-depends-on-scoped-local");
+                let e = self.expr(t, 1);
+                let op = match t {
+                    T::Bool => if self.ch.chance(1, 2) { BinOp::And } else { BinOp::Or },
+                    _ => BinOp::Add,
+                };
+                out.push(S::Expr(E::Bin(op, Box::new(E::Local(l)), Box::new(e))));
+            }
+            _ => out.push(self.tail_stmt(t, d)),
+        }
         self.scope = saved_scope;
         self.assigned = saved_assigned;
         out
